@@ -2,109 +2,22 @@ package main
 
 import (
 	"fmt"
-	"go/ast"
-	"go/token"
 
 	"nvharness/lib/gofacts"
 )
 
-// canonBody prints the body of a function with receiver, parameters, named results and local variables renamed to
-// canonical names in order of first declaration (_r, _p0…, _o0…, _v0…) and white space collapsed. Two bodies are
-// equal under canonBody iff they are the same statements up to renaming of local names — so a harmless rename does
-// not break the tie, while any inserted, removed or changed statement does. Field and method names (selectors,
-// struct-literal keys) are never renamed. The file's AST is modified in place.
-func canonBody(f *gofacts.File, fd *ast.FuncDecl) string {
-	if fd == nil || fd.Body == nil {
+// canonOf is the canonical text of a function (lib/gofacts Canon: every locally declared identifier — receiver,
+// parameters, named results, :=/var/range bindings, func-literal parameters — renamed v1, v2, … in order of first
+// appearance, `var x = e` ≡ `x := e`, white space collapsed, comments dropped). Two functions have the same canonical
+// text iff they are the same statements up to local names: a harmless rename does not break the tie, any inserted,
+// removed or changed statement does. "" = plain function.
+func canonOf(f *gofacts.File, recv, name string) string {
+	fd := f.Func(recv, name)
+	if fd == nil {
 		return ""
 	}
-	names := map[string]string{}
-	bind := func(id *ast.Ident, prefix string, n *int) {
-		if id == nil || id.Name == "_" {
-			return
-		}
-		if _, ok := names[id.Name]; !ok {
-			names[id.Name] = fmt.Sprintf("%s%d", prefix, *n)
-			*n++
-		}
-	}
-	var np, no, nv int
-	if fd.Recv != nil {
-		for _, fl := range fd.Recv.List {
-			for _, id := range fl.Names {
-				if id.Name != "_" {
-					names[id.Name] = "_r"
-				}
-			}
-		}
-	}
-	if fd.Type.Params != nil {
-		for _, fl := range fd.Type.Params.List {
-			for _, id := range fl.Names {
-				bind(id, "_p", &np)
-			}
-		}
-	}
-	if fd.Type.Results != nil {
-		for _, fl := range fd.Type.Results.List {
-			for _, id := range fl.Names {
-				bind(id, "_o", &no)
-			}
-		}
-	}
-	skip := map[*ast.Ident]bool{}
-	ast.Inspect(fd.Body, func(n ast.Node) bool {
-		switch x := n.(type) {
-		case *ast.SelectorExpr:
-			skip[x.Sel] = true
-		case *ast.KeyValueExpr:
-			if id, ok := x.Key.(*ast.Ident); ok {
-				skip[id] = true
-			}
-		case *ast.AssignStmt:
-			if x.Tok == token.DEFINE {
-				for _, l := range x.Lhs {
-					if id, ok := l.(*ast.Ident); ok {
-						bind(id, "_v", &nv)
-					}
-				}
-			}
-		case *ast.ValueSpec:
-			for _, id := range x.Names {
-				bind(id, "_v", &nv)
-			}
-		case *ast.RangeStmt:
-			if x.Tok == token.DEFINE {
-				if id, ok := x.Key.(*ast.Ident); ok {
-					bind(id, "_v", &nv)
-				}
-				if id, ok := x.Value.(*ast.Ident); ok {
-					bind(id, "_v", &nv)
-				}
-			}
-		case *ast.FuncLit:
-			if x.Type.Params != nil {
-				for _, fl := range x.Type.Params.List {
-					for _, id := range fl.Names {
-						bind(id, "_v", &nv)
-					}
-				}
-			}
-		}
-		return true
-	})
-	ast.Inspect(fd.Body, func(n ast.Node) bool {
-		if id, ok := n.(*ast.Ident); ok && !skip[id] {
-			if c, ok := names[id.Name]; ok {
-				id.Name = c
-			}
-		}
-		return true
-	})
-	return f.Src(fd.Body)
+	return f.Canon(fd)
 }
-
-// canonOf loads nothing: convenience for "receiver type, function name" lookups ("" = plain function).
-func canonOf(f *gofacts.File, recv, name string) string { return canonBody(f, f.Func(recv, name)) }
 
 var pinned = []struct{ file, recv, name string }{
 	{"syncx/semap/semaphore.go", "", "newWeighted"},
